@@ -48,6 +48,25 @@ class C11(Prop):
             if data:
                 steer.append([R.choice(data), t])
         spec["steer"] = steer
+        # UDP: the QUIC client port is the free 16-bit word; choose it so that one datagram's checksum computes to
+        # zero and is therefore transmitted as 0xffff (RFC 768)
+        from .. import netbuild as NB, quicpeer
+        import struct
+        for c in spec["conns"]:
+            if c["proto"] != "quic" or not R.chance(60):
+                continue
+            _, info = quicpeer.build_units(c)
+            j = R.below(len(info["dgrams"]))
+            pl = info["dgrams"][j]
+            sip, cip = bytes.fromhex(c["s"]["ip"]), bytes.fromhex(c["c"]["ip"])
+            ln = 8 + len(pl)
+            hdr = struct.pack(">HHHH", c["s"]["port"], 0, ln, 0)     # the client port word set to zero
+            s0 = NB.raw_sum16(NB.pseudo(c["v6"], sip, cip, 17, ln) + hdr + pl)
+            port = (-s0) % 0xFFFF
+            taken = set(x["c"]["port"] for x in spec["conns"]) | {443, 44330, 8080}
+            if 1024 <= port <= 65535 and port not in taken:
+                c["c"]["port"] = port
+                c["udp_ffff_dg"] = j
         return spec
 
     def subsets(self, spec, ex, tier):
